@@ -5,7 +5,7 @@ BodyPartReader), aiohttp.formdata.FormData, aiohttp.payload, aiohttp.streams.Str
 aiohttp.web_request.BaseRequest.post.
 Model: lean/AioModel/C19.lean; theorems: lean/AioProps/C19.lean.
 """
-import asyncio, base64, binascii, gzip, json, os, re, zlib
+import io, asyncio, base64, binascii, gzip, json, os, re, zlib
 from urllib.parse import unquote
 from multidict import CIMultiDict
 from .common import c19_io as io19
@@ -27,6 +27,7 @@ THEOREMS = [
     "Aio.C19.size_truthful",
     "Aio.C19.size_truthful_after_header_change",
     "Aio.C19.size_declared_iff_plain",
+    "Aio.C19.io_payload_replays",
     "Aio.C19.gather_terminates",
     "Aio.C19.gather_fuel_enough",
     "Aio.C19.gather_eof_counter",
@@ -55,7 +56,11 @@ RULE = ("(a) round trips: real MultipartWriter (subtypes mixed/related/form-data
         "3-12 steps of append part / append nested writer / change, add or delete a header of an already appended part or nested writer "
         "(set_content_disposition, headers[k]=v, popall) on a tree of depth <= 2, with size queries of the changed writer, an ancestor or the "
         "root interleaved: at every query declared size == bytes write() produces now, a size is declared iff no part is encoded, and the "
-        "model (size and bytes as pure functions of the current parts) agrees. Every case is compared event by event (headers, every chunk/line handed "
+        "model (size and bytes as pure functions of the current parts) agrees; parts of a history are also built through the payload "
+        "registry from file-like objects (BytesIO, TemporaryFile, file opened rb, text-mode file, StringIO) holding a prefix of 0-3000 bytes "
+        "and positioned just after it, each query writes the body again (size asked before or after the write) and the bytes written "
+        "are read back with the real reader and must be what was added; (g) get_payload(BytesIO / real file at offset k) under random "
+        "size/write sequences vs the IOPayload model. Every case is compared event by event (headers, every chunk/line handed "
         "out, error class) with the Lean model, and judged by the direct oracle. Distinct by boundary+parts+cuts+script.")
 TRUSTED_BASE = [
     "zlib and binascii.b2a_qp are not modelled: the compressor outputs and quoted-printable encodings are oracle columns of the writer model",
@@ -874,6 +879,8 @@ def run_case(ctx, loop, case, lines):
         one_nestlim(ctx, loop, case, lines)
     elif k == "hist":
         one_history(ctx, loop, case, lines)
+    elif k == "iop":
+        one_iopayload(ctx, loop, case, lines)
 
 
 # ------------------------------------------------------------------------------ limits are enforced while reading
@@ -965,7 +972,11 @@ def one_post(ctx, loop, case):
     if out.get("err") == "LOOP":
         ctx.violation("C19/termination/step-bound-exceeded", case, "post() exceeded the step bound"); return
     if 0 < cms < len(wire):
-        if out.get("err") != "too-large":
+        semi = any(";" in (f["name"] + (f.get("filename") or "")) for f in fields)
+        if out.get("err", "").startswith("ValueError") and semi:
+            # the first field's Content-Disposition is unparsable (recorded finding) before the size limit is reached
+            ctx.violation("C19/roundtrip/disposition-param-with-semicolon", case, f"post() failed: {out['err']}")
+        elif out.get("err") != "too-large":
             ctx.violation("C19/limits/post/not-enforced", case, f"body of {len(wire)} bytes with client_max_size={cms}: {out.get('err', 'accepted')}")
         elif fed > cms + 3 * 8192 + 2 * seg:
             ctx.violation("C19/limits/post/enforced-only-after-buffering", case, f"{fed} bytes fed before 413, client_max_size={cms}")
@@ -1397,14 +1408,83 @@ def _wz_line(w, loop):
                 return None
             toks.append("|".join([h, hx(write_all(loop, part)), "0", "n", "-", "-", "~"]))
         else:
-            content = bytes(part._value)
+            content = getattr(part, "_c19_expected", None)
+            if content is None:
+                content = bytes(part._value)
             cz1, czf, qps = compress_pieces(content, enc or None, te or None)
             toks.append("|".join([h, hx(content), "1" if enc else "0", {"base64": "b", "quoted-printable": "q"}.get(te, "n"),
                                   hx(cz1), hx(czf), show_list(qps)]))
     return " ".join(toks)
 
 
+IO_SOURCES = ("bytesio", "file", "filerb", "textfile", "stringio")
+
+
+def _io_source(src, prefix, content, opened):
+    """a file-like object holding prefix + content, positioned just after the prefix (as after a caller consumed a header)"""
+    import tempfile
+    if src == "bytesio":
+        f = io.BytesIO(prefix + content); f.seek(len(prefix)); return f
+    if src == "stringio":
+        f = io.StringIO((prefix + content).decode("ascii")); f.read(len(prefix)); return f
+    if src == "file":
+        f = tempfile.TemporaryFile("w+b"); f.write(prefix + content); f.flush(); f.seek(len(prefix)); opened.append(f); return f
+    t = tempfile.NamedTemporaryFile("wb", delete=False, prefix="c19-", suffix=".bin")
+    t.write(prefix + content); t.close()
+    if src == "filerb":
+        f = open(t.name, "rb"); f.seek(len(prefix))
+    else:
+        f = open(t.name, "r", encoding="utf-8", newline=""); f.read(len(prefix))
+    os.unlink(t.name)
+    opened.append(f)
+    return f
+
+
+def _hist_expected(w):
+    from aiohttp import MultipartWriter
+    return [_hist_expected(p) if isinstance(p, MultipartWriter) else p._c19_expected for p, _, _ in w._parts]
+
+
+def _hist_readback(loop, w, wire):
+    """parts (nested lists of decoded contents) the real reader yields for the bytes the writer just produced"""
+    from aiohttp.multipart import MultipartReader
+    sr = io19.make_stream(loop, 2 ** 16, 16 * len(wire) + 4096)
+    sr.feed_data(wire); sr.feed_eof()
+
+    async def walk(rd):
+        out = []
+        while True:
+            part = await rd.next()
+            if part is None:
+                return out
+            if isinstance(part, MultipartReader):
+                out.append(await walk(part))
+            else:
+                out.append(bytes(await part.read(decode=True)))
+
+    async def main():
+        return await walk(MultipartReader({"Content-Type": w.headers["Content-Type"]}, sr))
+    try:
+        return loop.run_until_complete(main())
+    except Exception as e:
+        return f"{type(e).__name__}: {str(e)[:80]}"
+
+
+def _has_empty_nested_tree(t):
+    return any(isinstance(x, list) and (not x or _has_empty_nested_tree(x)) for x in t)
+
+
 def one_history(ctx, loop, case, lines):
+    opened = []
+    try:
+        return _one_history(ctx, loop, case, lines, opened)
+    finally:
+        for f in opened:
+            try: f.close()
+            except Exception: pass
+
+
+def _one_history(ctx, loop, case, lines, opened):
     """a writer is built step by step; sizes are queried in between and parts already appended (and nested writers already
     appended) keep changing.  At every query the declared size must be the number of bytes write() produces *now*, a size
     must be declared iff no part is encoded, and model and implementation must agree on size and bytes."""
@@ -1422,10 +1502,20 @@ def one_history(ctx, loop, case, lines):
             hdrs = CIMultiDict([tuple(h) for h in op[3]])
             if op[4]: hdrs["Content-Encoding"] = op[4]
             if op[5]: hdrs["Content-Transfer-Encoding"] = op[5]
-            p = payload.BytesPayload(bytes.fromhex(op[2]), headers=hdrs, content_type=op[6])
-            if w._is_form_data:
-                p.set_content_disposition("form-data", name=f"f{len(w._parts)}")
-            w.append_payload(p)
+            src = op[7] if len(op) > 7 else "bytes"
+            if src == "bytes":
+                p = payload.BytesPayload(bytes.fromhex(op[2]), headers=hdrs, content_type=op[6])
+                if w._is_form_data:
+                    p.set_content_disposition("form-data", name=f"f{len(w._parts)}")
+                w.append_payload(p)
+            else:
+                # a file-like value positioned past a prefix, through the payload registry (what FormData.add_field uses too)
+                if w._is_form_data:
+                    hdrs["Content-Disposition"] = f'form-data; name="f{len(w._parts)}"'
+                p = w.append(_io_source(src, bytes.fromhex(op[8]), bytes.fromhex(op[2]), opened), hdrs)
+            p._c19_expected = bytes.fromhex(op[2])
+            p._c19_src = src
+            ctx.hit("hist:src:" + src)
             touch(op[1], "append")
         elif op[0] == "N":
             w.append_payload(MultipartWriter(op[3], boundary=op[2]))
@@ -1441,9 +1531,14 @@ def one_history(ctx, loop, case, lines):
             touch(op[1], "header")
         elif op[0] == "Q":
             nq += 1
+            order = op[2] if len(op) > 2 else "size-first"
             try:
-                declared = w.size
-                wire = write_all(loop, w)
+                if order == "size-first":
+                    declared = w.size
+                    wire = write_all(loop, w)
+                else:                       # the body is sent before anyone asked for its size
+                    wire = write_all(loop, w)
+                    declared = w.size
             except (AssertionError, ValueError) as e:
                 ctx.hit("hist:writer-refuses"); return
             kind = last.pop(id(w), "none")
@@ -1456,6 +1551,23 @@ def one_history(ctx, loop, case, lines):
                 ctx.violation("C19/size/undeclared-for-plain-parts", case, f"query {nq}: size is None although no part is encoded")
             elif declared is not None and not plain:
                 ctx.violation("C19/size/declared-for-encoded-parts", case, f"query {nq}: size={declared} although a part is encoded")
+            # what was written must read back as what was added - on the first write and on every later one
+            exp = _hist_expected(w)
+            got = _hist_readback(loop, w, wire)
+            if got != exp:
+                srcs = sorted({getattr(p, "_c19_src", "nested") for p, _, _ in w._parts})
+                if _has_empty_nested_tree(exp):
+                    ctx.violation("C19/roundtrip/empty-nested-multipart", case, f"query {nq}: a body with an empty nested multipart reads back as {str(got)[:80]}")
+                elif isinstance(got, str):
+                    ctx.violation("C19/roundtrip/history/reader-error", case,
+                                  f"query {nq} (write #{nq} of this history, part sources {srcs}): the bytes written do not parse: {got}")
+                else:
+                    flat = lambda t: [y for x in t for y in (flat(x) if isinstance(x, list) else [x])]
+                    fe, fg = flat(exp), flat(got)
+                    i = next((j for j in range(min(len(fe), len(fg))) if fe[j] != fg[j]), min(len(fe), len(fg)))
+                    ctx.violation("C19/roundtrip/history/content-differs", case,
+                                  f"query {nq} (part sources {srcs}): {len(fe)} parts added, {len(fg)} read; part {i} added as "
+                                  f"{fe[i][:24] if i < len(fe) else None!r}… reads back as {fg[i][:24] if i < len(fg) else None!r}…")
             line = _wz_line(w, loop)
             if line is not None:
                 lines.append((line, f"ok {hx(wire)} size={'none' if declared is None else declared}", case,
@@ -1486,11 +1598,33 @@ def gen_history(rng):
                 if not form and rng.random() < 0.2:
                     enc, te = rng.choice([("gzip", None), (None, "base64"), ("deflate", "base64"), (None, "quoted-printable")])
                 n = rng.choice([0, 1, 5, 100, 300])
-                content = gen_content(rng, boundary, n, ascii_only=(te == "quoted-printable"))
-                if te == "quoted-printable":
-                    content = qp_text(rng, content)
+                for _try in range(12):
+                    content = gen_content(rng, boundary, n, ascii_only=(te == "quoted-printable"))
+                    if te == "quoted-printable":
+                        content = qp_text(rng, content)
+                    # precondition of reading back: no delimiter of this writer or of an enclosing one in the encoded body
+                    if b"\r\n--" not in b"\r\n" + encoded_body(content, enc, te) and b"\n--" not in b"\n" + encoded_body(content, enc, te):
+                        break
+                else:
+                    content = b"x" * n
                 hd = [["X-Note", rng.choice(["v", "a b", "x" * 40])]] if rng.random() < 0.3 else []
-                ops.append(["A", list(path), content.hex(), hd, enc, te, rng.choice(["application/octet-stream", "text/plain"])])
+                op = ["A", list(path), content.hex(), hd, enc, te, rng.choice(["application/octet-stream", "text/plain"])]
+                if rng.random() < 0.45:
+                    src = rng.choice(IO_SOURCES)
+                    if not enc and not te and rng.random() < 0.3:
+                        content = gen_content(rng, boundary, rng.choice([8192, 12000, 70000]), ascii_only=src in ("textfile", "stringio"))
+                    if src in ("textfile", "stringio"):
+                        content = bytes(c if 32 <= c < 127 or c in (13, 10) else 46 for c in content)
+                    if b"\n--" in b"\n" + content:
+                        content = content.replace(b"--", b"-.")
+                    if src == "textfile":
+                        # (TextIOWrapper.tell() is an opaque cookie; with a CR pending in the newline decoder it is not a byte
+                        #  offset and TextIOPayload.size goes wrong - a text-mode quirk outside this section: no bare CR at the end)
+                        content = content.replace(b"\r", b"") or b"t"
+                    prefix = rng.choice([b"", b"HDR\n", b"skip-this-header\r\n" * 3, bytes(range(48, 122)) * rng.randint(1, 40)])
+                    op[2] = content.hex()
+                    op += [src, prefix.hex()]
+                ops.append(op)
                 kids.append("B")
         else:
             idx = rng.randrange(len(kids))
@@ -1510,7 +1644,7 @@ def gen_history(rng):
         # query: the changed writer, an ancestor, or the root
         if rng.random() < 0.75:
             qp = list(path[:rng.randint(0, len(path))])
-            ops.append(["Q", qp])
+            ops.append(["Q", qp, rng.choice(["size-first", "size-first", "write-first"])])
     ops.append(["Q", []])
     return {"kind": "hist", "boundary": boundary, "subtype": subtype, "ops": ops}
 
@@ -1527,6 +1661,15 @@ def check_histories(ctx, loop):
             ["N", [], "inner", "mixed"], ["A", [0], b"one".hex(), [], None, None, "text/plain"], ["Q", []],
             ["A", [0], b"two-more".hex(), [], None, None, "text/plain"], ["Q", []],
             ["H", [0], 0, "set", "X-Custom", "w" * 50], ["Q", []], ["Q", [0]]]},
+        # file-like parts handed over while positioned past a header, written twice (retry / redirect)
+        {"kind": "hist", "boundary": "B", "subtype": "mixed", "ops": [
+            ["A", [], (b"payload-" * 40).hex(), [], None, None, "application/octet-stream", "filerb", bytes(range(100)).hex()],
+            ["A", [], (b"second-" * 30).hex(), [], None, None, "application/octet-stream", "bytesio", (b"H" * 100).hex()],
+            ["Q", [], "size-first"], ["Q", [], "write-first"], ["Q", [], "size-first"]]},
+        {"kind": "hist", "boundary": "B", "subtype": "form-data", "ops": [
+            ["A", [], (b"text line\r\n" * 20).hex(), [], None, None, "text/plain", "textfile", b"header line\n".hex()],
+            ["A", [], (b"raw" * 50).hex(), [], None, None, "application/octet-stream", "file", (b"\x00" * 7).hex()],
+            ["Q", [], "write-first"], ["Q", [], "size-first"]]},
     ]
     for i in range(len(fixed) + (150 if ctx.quick else 3000)):
         case = fixed[i] if i < len(fixed) else gen_history(rng)
@@ -1536,12 +1679,57 @@ def check_histories(ctx, loop):
     flush_compare(ctx, lines)
 
 
+# ------------------------------------------------------------------------------ file-like payloads: size / write sequences
+def one_iopayload(ctx, loop, case, lines):
+    """a payload built (through the registry) from a BytesIO or a real file positioned at offset k; then any sequence of
+    size queries and writes: every write must emit buf[k:], every size must be len(buf)-k (model: Aio.C19.IOPayload)"""
+    from aiohttp import payload
+    buf, k, ops, src = bytes.fromhex(case["buf"]), case["k"], case["ops"], case["src"]
+    opened = []
+    try:
+        f = _io_source(src, buf[:k], buf[k:], opened)
+        p = payload.get_payload(f)
+        outs = []
+        for op in ops:
+            if op == "S":
+                outs.append(f"s{p.size}")
+            else:
+                sink = Sink()
+                loop.run_until_complete(p.write(sink))
+                outs.append("w" + hx(sink.buf))
+        impl = ",".join(outs)
+    finally:
+        for f in opened:
+            f.close()
+    exp = ",".join(f"s{len(buf) - k}" if op == "S" else "w" + hx(buf[k:]) for op in ops)
+    ctx.hit(f"io:{src}")
+    if impl != exp:
+        i = next(j for j, (a, b) in enumerate(zip(impl.split(","), exp.split(","))) if a != b)
+        ctx.violation(f"C19/roundtrip/file-like-part/{'size' if ops[i] == 'S' else 'write'}-differs", case,
+                      f"{src} of {len(buf)} bytes handed over at offset {k}, operations {ops}: operation {i} gives "
+                      f"{impl.split(',')[i][:60]} instead of {exp.split(',')[i][:60]}")
+    lines.append((f"io {hx(buf)} {k} {'1' if src == 'bytesio' else '0'} {ops}", impl, case, "IOBasePayload/BytesIOPayload vs Aio.C19.IOPayload.run"))
+
+
+def check_iopayloads(ctx, loop):
+    rng = ctx.rng
+    lines = []
+    for i in range(60 if ctx.quick else 1200):
+        n = rng.choice([0, 1, 10, 100, 300])
+        buf = bytes(rng.randrange(256) for _ in range(n))
+        case = {"kind": "iop", "buf": buf.hex(), "k": rng.choice([0, 0, 1, n // 2, max(0, n - 1), n]) if n else 0,
+                "src": rng.choice(["bytesio", "file", "filerb"]), "ops": "".join(rng.choice("SWW") for _ in range(rng.randint(1, 5)))}
+        one_iopayload(ctx, loop, case, lines)
+        ctx.case(("iop", case["buf"], case["k"], case["src"], case["ops"]))
+    flush_compare(ctx, lines)
+
+
 def check(ctx):
     import time
     loop = asyncio.new_event_loop()
     asyncio.set_event_loop(loop)
     try:
-        for f in (check_probes, check_mechanisms, check_roundtrips, check_mutations, check_limits, check_bombs, check_tecases, check_nestlims, check_histories, check_posts):
+        for f in (check_probes, check_mechanisms, check_roundtrips, check_mutations, check_limits, check_bombs, check_tecases, check_nestlims, check_histories, check_iopayloads, check_posts):
             t = time.time()
             f(ctx, loop)
             ctx.extra.setdefault("section_seconds", {})[f.__name__] = round(time.time() - t, 1)
